@@ -165,7 +165,8 @@ class C05(Harness):
         idx = pd.RangeIndex(s0, s0 + n)
         y = pd.Series(inp["y"], index=idx)
         X = pd.DataFrame({"x%d" % j: col for j, col in enumerate(inp["xs"])}, index=idx) if cell["exog"] else None
-        f = red.make_reduction(Stub(), strategy=cell["strategy"], window_length=inp["wl"], scitype=cell["scitype"])
+        reg0 = Stub()  # the regressor object the caller configures: a template, fitted only through clones
+        f = red.make_reduction(reg0, strategy=cell["strategy"], window_length=inp["wl"], scitype=cell["scitype"])
         fh = np.array(inp["fh"])
         if cell.get("absfh"):
             FH = W.load("sktime.forecasting.base").ForecastingHorizon
@@ -197,13 +198,29 @@ class C05(Harness):
         except ValueError:
             return {"rejected": True}
         fits = list(log)
+        # a second forecaster built from the same regressor object, fitted on another series: the first one is unaffected
+        other = red.make_reduction(reg0, strategy=cell["strategy"], window_length=inp["wl"], scitype=cell["scitype"])
+        y_other = pd.Series([v + 1 for v in reversed(list(inp["y"]))], index=idx)
+        try:
+            other.fit(y_other, X, fh=fh)
+        except ValueError:
+            pass
+        del log[len(fits):]
+        template_fitted = hasattr(reg0, "id_")
         if cell["exog"] and cell["strategy"] == "recursive":
             hK = inp["fh"][-1]
             Xf = pd.DataFrame({"x%d" % j: col for j, col in enumerate(inp["xfs"])}, index=pd.RangeIndex(s0 + n, s0 + n + hK))
             pred = f.predict(fh, X=Xf)
         else:
             pred = f.predict()
-        out = {"rejected": False, "fits": fits, "index": L(pred.index), "values": L(pred.values), "cls": type(f).__name__}
+        out = {"rejected": False, "fits": fits, "index": L(pred.index), "values": L(pred.values), "cls": type(f).__name__, "template_fitted": template_fitted}
+        if cell["strategy"] != "recursive":
+            # a horizon other than the fitted one cannot be served by regressors trained for the fitted steps
+            try:
+                f.predict(np.array([h + 1 for h in inp["fh"]]))
+                out["other_fh"] = "accepted"
+            except ValueError:
+                out["other_fh"] = "refused"
         if not cell["exog"]:
             # moving cutoff over later observations, twice over the same stretch (the second pass walks a cutoff that
             # lies before the end of the data the forecaster has memorised): regressors must see the window that ends
@@ -316,6 +333,10 @@ class C05(Harness):
         fits = out["fits"]
         nest = K if strat in ("direct", "dirrec") else 1
         P.check("n-estimators", len(fits) == nest)
+        if "template_fitted" in out:
+            P.check("n-estimators", not out["template_fitted"], {"what": "the regressor object passed by the caller was fitted in place"})
+        if "other_fh" in out:
+            P.check("forecast-is-regressor-output", out["other_fh"] == "refused", {"what": "a horizon other than the fitted one was served", "strategy": strat})
         if len(fits) != nest:
             return
         rows = n - wl - need + 1
